@@ -273,6 +273,10 @@ class TorchCalls(TorchOps):
             return TV(kind="pybool", dtype="Bool", note=fn)
         if fn in ("str", "repr", "print", "id", "hash"):
             return Const("<str>") if fn in ("str", "repr") else (NONE if fn == "print" else TV(kind="pyint"))
+        if fn == "slice" and 1 <= len(args) <= 3 and not kwargs:
+            a = list(args)
+            lo, hi, st_ = (NONE, a[0], NONE) if len(a) == 1 else (a[0], a[1], a[2] if len(a) == 3 else NONE)
+            return ListV(items=(lo, hi, st_), kind="slice")
         if fn in ("iter",):
             return args[0]
         if fn == "next" and 1 <= len(args) <= 2:
